@@ -440,6 +440,17 @@ func handlerPhase() {
 		{name: "not-implemented", err: func() error { return token.NotImplementedError{Op: "sign", Type: "verif"} }},
 		{name: "key-usage", err: func() error { return token.KeyUsageError{Key: "rsaA", Err: errors.New("key cannot sign")} }, usage: true},
 		{name: "plain-error", err: func() error { return errors.New("something odd") }, either: true},
+		// a key-usage error CAUSED by a PKCS#11 return value (what p11token wraps): the classification of
+		// the outer error counts - permanent, with usage and key intact - whatever the cause is
+		{name: "key-usage(cause: pkcs11 non-fatal)", err: func() error {
+			return token.KeyUsageError{Key: "rsaA", Err: workercmd.VerifPkcs11Error(0x63)}
+		}, usage: true},
+		{name: "key-usage(cause: pkcs11 fatal)", err: func() error {
+			return token.KeyUsageError{Key: "rsaA", Err: workercmd.VerifPkcs11Error(0xb0)}
+		}, usage: true},
+		{name: "not-implemented(wrapped in fmt.Errorf)", err: func() error {
+			return fmt.Errorf("signing: %w", token.NotImplementedError{Op: "sign", Type: "verif"})
+		}, either: true},
 	}
 	for _, op := range []string{"getkey", "sign"} {
 		for _, te := range errs {
